@@ -1,3 +1,10 @@
 // Pasted into protocols/gossipsub/src/mcache.rs (mod verif) under cfg(kani).
 #[allow(unused_imports)]
 use super::*;
+
+// C33 (message cache part) compiles the verbatim MessageCache text against stand-ins
+// that need the dependency shims: mounted in the shim tree only (the generated mount
+// file is empty elsewhere).
+pub(crate) mod c33m {
+    include!(concat!(env!("LIBP2P_VERIF_GEN"), "/C33/mcache_mount.rs"));
+}
